@@ -102,7 +102,7 @@ def run(ctx, res):
     for i in range(ctx.budget(250, 6000)):
         g = gen_lua.LuaGen(rng)
         items = g.program()
-        src = gen_lua.layout(rng, items, 'lines', final_newline=rng.random() < 0.8)
+        src = gen_lua.layout(rng, items, rng.choice(['lines', 'elements']), final_newline=rng.random() < 0.8)
         w = rng.randrange(0, 9)
         res.evaluations += 1
         inp = {'source': hx(src), 'indentwidth': w}
